@@ -122,6 +122,15 @@ def toPeriod (v : Variant) (hz : Rat) : Except Err Int :=
     | .current => F64.trunc (periodF hz)
     | .intended => F64.rint (periodF hz))
 
+/-- `Frequency.to_period(time_unit=u)` (intended rounding): whole number of `u` in one period -/
+def toPeriodIn (hz : Rat) (u : TimeUnit) : Except Err Int :=
+  if hz = 0 then .error .zeroDiv else
+  .ok (F64.rint (F64.fmul (F64.fdiv 1 hz) (F64.fdiv (cf .s) (cf u))))
+
+/-- a sequence of `to_period` calls on ONE object: the object has no state, so each answer is the
+answer of a fresh object -/
+def toPeriodSeq (hz : Rat) (us : List TimeUnit) : List (Except Err Int) := us.map (toPeriodIn hz)
+
 /-! ### construction from an existing axis -/
 
 /-- the block `if isinstance(data, UniformTime): …` : returns the arguments after inheritance -/
@@ -441,6 +450,13 @@ def handle (args : List String) : String :=
     match parseHex? h with
     | some n => both fun v => showExcept toString (toPeriod v (F64.ofBits n))
     | none => "bad-op"
+  | ["to_period_seq", h, us] =>
+    match parseHex? h, (splitList us).mapM TimeUnit.ofString? with
+    | some n, some us =>
+      "ok " ++ joinList ((toPeriodSeq (F64.ofBits n) us).map fun r => match r with
+        | .ok p => toString p
+        | .error _ => "err")
+    | _, _ => "bad-op"
   | ["arange_len", dur, dt] =>
     match dur.toInt?, dt.toInt? with
     | some dur, some dt => "ok " ++ toString (arangeLen dur dt)
